@@ -163,6 +163,86 @@ def run_search(case, cache=None):
     return (first, repr(results))
 
 
+class StepModel(Core.Model):
+    """Runs until the step limit (or its own lifetime); the score is the number of timesteps it was advanced."""
+
+    def __init__(self, a, life=10 ** 6):
+        super().__init__(seed=1)
+        self.a = a
+        life_ = life
+
+        class Stop(Core.System):
+            def execute(self):
+                if self.model.systems.timestep + 1 >= life_ + a:
+                    self.model.complete()
+        self.systems.add_system(Stop('stop', self))
+
+
+def steps_score(model):
+    return model.systems.timestep
+
+
+def limit_case(case):
+    """Searches over models that run until the step limit: every process count honours max_timesteps."""
+    reset_library()
+    limit, life, procs = case['limit'], case['life'], case['procs']
+    oc = case.get('outcome')
+    if procs != 1:
+        sched.install(Batching, (tuple(tuple(w) for w in oc[0]), tuple(oc[1])) if oc else None, sched.WorkerCache())
+    try:
+        best, results = Batching.grid_search(StepModel, {'a': [1, 2, 3], 'life': life}, steps_score, processes=procs,
+                                             max_timesteps=limit, repetitions=2, mode=ScoreMode.MAX_SUM)
+    finally:
+        if procs != 1:
+            sched.uninstall(Batching)
+    exp = [[min(limit, life + a)] * 2 for a in (1, 2, 3)]
+    got = [r['records'] for r in results]
+    if got != exp:
+        raise Violation(f'grid_search with max_timesteps={limit} (models would run {life}+a steps), processes={procs}, '
+                        f'schedule {oc}: a model was advanced past the limit or stopped early', expected=exp, observed=got)
+    first = [sum(r) for r in exp].index(max(sum(r) for r in exp))
+    if best != results[first]:
+        raise Violation('wrong best for the step-limited search', expected=first)
+    return tuple(map(tuple, got))
+
+
+def limit_cases():
+    for limit, life in ((3, 100), (5, 2), (4, 3)):
+        yield {'leg': 'limit', 'limit': limit, 'life': life, 'procs': 1}
+        for oc in sched.outcomes(3, 2):
+            yield {'leg': 'limit', 'limit': limit, 'life': life, 'procs': 2,
+                   'outcome': [list(map(list, oc[0])), list(oc[1])]}
+
+
+def reused_list_case(case):
+    """One ParameterList searched several times with its declaration edited in between; repeated values count."""
+    reset_library()
+    pl = Batching.ParameterList({'a': [3, 1, 2], 'b': [5, 6]})
+    GLOBAL_TABLE.clear()
+    GLOBAL_TABLE.update({(a, b): 10 * a + b for a in (1, 2, 3, 4) for b in (0, 5, 6)})
+    plan = [('run', [(3, 5), (3, 6), (1, 5), (1, 6), (2, 5), (2, 6)]), ('remove', 'b'), ('run', [(3, 0), (1, 0), (2, 0)]),
+            ('remove', 'a'), ('add', ('a', [4, 1, 1, 4])), ('run', [(4, 0), (1, 0), (1, 0), (4, 0)])]
+    n = 0
+    for what, arg in plan:
+        if what == 'remove':
+            pl.remove_parameter(arg)
+        elif what == 'add':
+            pl.add_parameter(*arg)
+        else:
+            best, results = Batching.grid_search(GModel, pl, global_score, processes=case['procs'], mode=ScoreMode.MIN)
+            got = [(r['a'], r.get('b', 0), r['score']) for r in results]
+            exp = [(a, b, 10 * a + b) for a, b in arg]
+            n += 1
+            if got != exp:
+                raise Violation(f'search {n} over a ParameterList edited since the previous search (repeated values '
+                                f'included) does not evaluate its current combinations (processes={case["procs"]})',
+                                expected=exp, observed=got)
+            first = [e[2] for e in exp].index(min(e[2] for e in exp))
+            if best != results[first]:
+                raise Violation(f'search {n}: best is not the first minimum', expected=first)
+    return n
+
+
 GLOBAL_TABLE = {}
 
 
@@ -285,6 +365,15 @@ def chunk_fn(ctx, chunk):
     cache = sched.WorkerCache()
     serial_memo = {}
     for case in chunk:
+        if case['leg'] in ('limit', 'reused_list'):
+            ctx.traces += 1
+            ctx.states += 1
+            ctx.transitions += 3
+            try:
+                ctx.outcome(hbfs._guard(limit_case if case['leg'] == 'limit' else reused_list_case, case))
+            except Violation as v:
+                ctx.report(case, v)
+            continue
         if case['leg'] == 'pool_reuse':
             ctx.traces += 1
             ctx.states += 1
@@ -320,12 +409,13 @@ def run(ctx):
     ser = list(serial_cases(ctx.tier))
     sc = list(sched_cases())
     pr = list(pool_reuse_cases())
-    allc = ser + sc
+    lim = list(limit_cases()) + [{'leg': 'reused_list', 'procs': 1}]
+    allc = lim + ser + sc
     size = max(1, len(allc) // (ctx.procs * 4))
     par.pmap(ctx, chunk_fn, [allc[i:i + size] for i in range(0, len(allc), size)], procs=ctx.procs)
     if not ctx.violations:
         # real pools fork: run these from the parent, one after the other (deterministic: staleness, not timing)
-        chunk_fn(ctx, pr)
+        chunk_fn(ctx, pr + [{'leg': 'reused_list', 'procs': 2}])
         ctx.leg('pool_reuse_real_pool', sequences=len(pr))
     ctx.leg('serial', searches=len(ser))
     ctx.leg('schedule', searches=len(sc))
@@ -334,6 +424,12 @@ def run(ctx):
 
 
 def replay(case):
+    if case['leg'] == 'limit':
+        hbfs._guard(limit_case, case)
+        return
+    if case['leg'] == 'reused_list':
+        hbfs._guard(reused_list_case, case)
+        return
     if case['leg'] == 'pool_reuse':
         hbfs._guard(pool_reuse_case, case)
         return
